@@ -26,6 +26,7 @@ import (
 	"sort"
 	"strings"
 	"sync"
+	"sync/atomic"
 	"time"
 	"unicode/utf8"
 
@@ -743,6 +744,9 @@ func checkValid(vec *Vec, rep *tc.Reporter) {
 	if tb := packets.TotalBytes(pk); int(tb) != len(enc) {
 		div("totalbytes-packed:"+ty, fmt.Sprintf("packets.TotalBytes = %d after Pack wrote %d bytes (%s)", tb, len(enc), ty), vec, nil)
 	}
+	if p.V == 5 && len(p.Props) > 0 && member(enc, vec) && len(concSamples) < 64 {
+		concSamples = append(concSamples, concSample{vec: vec, ref: append([]byte(nil), enc...)})
+	}
 	// the message built from the value (outbound direction: the decoder refuses Subscription Identifiers in a PUBLISH,
 	// finding D11, so messages with identifiers are only reached from here)
 	if pub, ok := pk.(*packets.Publish); ok && member(enc, vec) {
@@ -964,7 +968,45 @@ func checkValidity(vec *Vec, rep *tc.Reporter) {
 	pk("UNSUBSCRIBE", vec.Unsub5, 5, vec.Vs)
 }
 
+// concurrent encoders: the encoders share a pool of scratch buffers (bufferPool); a value must encode to the same bytes
+// whatever other goroutines encode at the same time
+type concSample struct {
+	vec *Vec
+	ref []byte
+}
+
+var concSamples []concSample
+
+func concurrentEncoders(d time.Duration) (rounds int64) {
+	if len(concSamples) < 4 || d <= 0 {
+		return 0
+	}
+	var wg sync.WaitGroup
+	var stop, n int64
+	for g := 0; g < 64; g++ {
+		wg.Add(1)
+		go func(g int) {
+			defer wg.Done()
+			cs := concSamples[g%len(concSamples)]
+			for atomic.LoadInt64(&stop) == 0 {
+				enc, perr := pack(toReal(cs.vec.P))
+				atomic.AddInt64(&n, 1)
+				if perr != "" || !bytes.Equal(enc, cs.ref) {
+					div("encode-concurrent:"+cs.vec.P.T, fmt.Sprintf("while 64 goroutines encode, Pack of %s gives %x (%s) instead of %x (the bytes it gives alone)",
+						canon(cs.vec.P), head(enc), perr, head(cs.ref)), cs.vec, nil)
+					return
+				}
+			}
+		}(g)
+	}
+	time.Sleep(d)
+	atomic.StoreInt64(&stop, 1)
+	wg.Wait()
+	return n
+}
+
 func main() {
+	conc := flag.Duration("concurrent", 1500*time.Millisecond, "duration of the concurrent-encoders phase (0 = none)")
 	raw := flag.Bool("raw", false, "input lines are plain JSON vectors (replay), not TLC string literals")
 	wd := flag.Duration("watchdog", 20*time.Second, "per-decode watchdog")
 	flag.Parse()
@@ -1053,6 +1095,9 @@ func main() {
 		if err != nil {
 			break
 		}
+	}
+	if n := concurrentEncoders(*conc); n > 0 {
+		rep.Count("concurrent_encodings", n)
 	}
 	w := bufio.NewWriter(os.Stdout)
 	sigs := []string{}
